@@ -1,6 +1,7 @@
 package props
 
 import (
+	"github.com/freeconf/yang/source"
 	"fmt"
 	"os"
 	"os/exec"
@@ -1198,6 +1199,61 @@ func c06probes(c *core.Ctx) {
 				sort.Strings(bad)
 				return strings.Join(bad, "; ")
 			}, ""})
+		}
+	}
+	// statements of a submodule that is reached through another submodule only (the YANG 1 way of nesting includes)
+	{
+		files := map[string]string{
+			"nm": `module nm { namespace "urn:nm"; prefix nm; include nm-a; revision 2020-01-01; container top { leaf t { type string; } } }`,
+			"nm-a": `submodule nm-a { belongs-to nm { prefix nm; } include nm-b; container c1 { description "one"; leaf a { type t2; } } }`,
+			"nm-b": `submodule nm-b { belongs-to nm { prefix nm; } typedef t2 { type string; units "u2"; default "d2"; } container c2 { presence "yes"; description "two"; leaf b { type string; mandatory true; } } rpc r2 { description "rpc two"; } notification n2 { leaf e { type string; } } }`}
+		c.Evaluations++
+		c.Count("probe", "nested includes")
+		var m *meta.Module
+		var lerr error
+		perr := safeDo(func() error {
+			m, lerr = parser.LoadModule(source.Any(source.Named("nm", strings.NewReader(files["nm"])), source.Named("nm-a", strings.NewReader(files["nm-a"])), source.Named("nm-b", strings.NewReader(files["nm-b"]))), "nm")
+			return nil
+		})
+		res := ""
+		switch {
+		case perr != nil:
+			res = perr.Error()
+		case lerr != nil:
+			res = "valid module set does not load: " + lerr.Error()
+		default:
+			perr = safeDo(func() error {
+				var names []string
+				for _, d := range m.DataDefinitions() {
+					names = append(names, d.Ident())
+				}
+				sort.Strings(names)
+				if strings.Join(names, " ") != "c1 c2 top" {
+					res = fmt.Sprintf("data definitions read back as %v, written [c1 c2 top]", names)
+					return nil
+				}
+				c2 := meta.Find(m, "c2").(*meta.Container)
+				a := meta.Find(m, "c1/a").(*meta.Leaf)
+				switch {
+				case c2.Description() != "two" || c2.Presence() != "yes":
+					res = fmt.Sprintf("c2 reads description %q presence %q", c2.Description(), c2.Presence())
+				case !meta.Find(m, "c2/b").(*meta.Leaf).Mandatory():
+					res = "c2/b is not mandatory"
+				case a.Units() != "u2" || !a.HasDefault() || a.Default() != "d2":
+					res = fmt.Sprintf("c1/a (typedef of the inner submodule) reads units %q default %q", a.Units(), a.Default())
+				case m.Actions()["r2"] == nil || m.Actions()["r2"].Description() != "rpc two":
+					res = "rpc r2 of the inner submodule is lost"
+				case m.Notifications()["n2"] == nil:
+					res = "notification n2 of the inner submodule is lost"
+				}
+				return nil
+			})
+			if perr != nil {
+				res = perr.Error()
+			}
+		}
+		if res != "" {
+			c.Violation(core.Replay{Kind: "property-failure", Class: "probe-nested-includes", Summary: "a submodule included by a submodule: " + res, Input: files})
 		}
 	}
 	probes = append(probes, probe{"extension below the description / reference of a must", hdr + "  extension e { argument v; }\n  leaf a { type string; must \"1\" { description \"d\" { m:e \"x3\"; } reference \"r\" { m:e \"x4\"; } } }\n}", func(m *meta.Module, err error) string {
